@@ -7,6 +7,8 @@ use rand::SeedableRng;
 use rand_chacha::ChaChaRng;
 use serde_json::{json, Value};
 
+const PROBES: u64 = 20_000;
+
 fn bloom(n: usize, p: f64, seed: u64) -> Value {
     let made = guarded(|| BloomFilter::<u64, CtlBH>::with_properties_and_hash(n, p, CtlBH::mix(seed)));
     let mut f = match made {
@@ -22,13 +24,14 @@ fn bloom(n: usize, p: f64, seed: u64) -> Value {
             }
         }
         let missing = (0..n as u64).filter(|i| !f.query(&mix64(*i))).count();
-        let fp = (0..2000u64).filter(|i| f.query(&mix64(*i + (1 << 40)))).count();
+        let fp = (0..PROBES).filter(|i| f.query(&mix64(*i + (1 << 40)))).count();
         let len = f.len();
         let _ = f.is_empty();
-        (failed, missing, fp, len)
+        (failed, missing, fp, len, f.verif_bits().len())
     });
     match r {
-        Ok((failed, missing, fp, len)) => json!({"res": "ok", "k": k.min(1 << 30), "m": m.min(1 << 30), "failed": failed, "missing": missing, "fp_of_2000": fp, "len": len.min(1 << 30)}),
+        Ok((failed, missing, fp, len, ones)) => json!({"res": "ok", "k": k.min(1 << 30), "m": m.min(1 << 30), "failed": failed, "missing": missing,
+                                                      "fp": fp, "probes": PROBES, "len": len.min(1 << 30), "ones": ones}),
         Err(msg) => json!({"res": "panic", "where": "use", "panic": msg, "k": k.min(1 << 30), "m": m.min(1 << 30)}),
     }
 }
@@ -54,11 +57,12 @@ fn cuckoo(n: usize, p: f64, eight: bool, seed: u64) -> Value {
             }
         }
         let missing = (0..n as u64).filter(|i| !f.query(&mix64(*i))).count();
-        let fp = (0..2000u64).filter(|i| f.query(&mix64(*i + (1 << 40)))).count();
+        let fp = (0..PROBES).filter(|i| f.query(&mix64(*i + (1 << 40)))).count();
         (full, missing, fp, f.len())
     });
     match r {
-        Ok((full, missing, fp, len)) => json!({"res": "ok", "bucketsize": b, "n_buckets": nb.min(1 << 30), "l": l, "full": full, "missing": missing, "fp_of_2000": fp, "len": len}),
+        Ok((full, missing, fp, len)) => json!({"res": "ok", "bucketsize": b, "n_buckets": nb.min(1 << 30), "l": l, "full": full, "missing": missing,
+                                               "fp": fp, "probes": PROBES, "len": len}),
         Err(msg) => json!({"res": "panic", "where": "use", "panic": msg, "bucketsize": b, "n_buckets": nb.min(1 << 30), "l": l}),
     }
 }
